@@ -31,6 +31,19 @@ pub struct VehicleCfg {
     pub model_units: Option<(String, String)>,
 }
 
+/// the exact decimal expansion of the midpoint between an f32 and its neighbour of larger magnitude, with one
+/// more digit appended: a number a hair beyond the midpoint, nearest to the neighbour of larger magnitude
+pub fn just_beyond_f32_midpoint(a: f32) -> String {
+    let b = f32::from_bits(a.to_bits() + 1);
+    let m = (a as f64 + b as f64) / 2.0; // exact: both have 24 significant bits
+    let mut t = format!("{:.70}", m);
+    while t.ends_with('0') {
+        t.pop();
+    }
+    t.push('1');
+    t
+}
+
 /// upper bounds of the interpolation grid in the declared units (the grid spans 0..speed, -grade..grade)
 pub fn interpolation_bounds(speed_unit: &str, grade_unit: &str) -> (f64, f64) {
     (
@@ -110,6 +123,10 @@ pub struct World {
     /// directory of the input files below /sim/ ("" or e.g. "a/"): two networks may use the same file names
     #[serde(default)]
     pub subdir: String,
+    /// vertices whose x coordinate is written with this text instead (a decimal of some twenty digits just beyond
+    /// the midpoint of two neighbouring f32 values: the listed coordinate is the f32 nearest to the *decimal*)
+    #[serde(default)]
+    pub x_text: std::collections::BTreeMap<usize, String>,
     pub explicit_counts: bool,
     pub traversal: Traversal,
     pub algorithm: Value,
@@ -353,6 +370,7 @@ impl World {
             csv_blank_lines: 0,
             gz_members: 0,
             subdir: String::new(),
+            x_text: Default::default(),
             explicit_counts: r.chance(0.3),
             traversal: Traversal::Distance { unit: "kilometers".into() },
             algorithm: json!({"type": "a*"}),
@@ -442,7 +460,7 @@ impl World {
                 .iter()
                 .map(|c| match c.as_str() {
                     "vertex_id" => i.to_string(),
-                    "x" => fmt_f(*x),
+                    "x" => self.x_text.get(&i).cloned().unwrap_or_else(|| fmt_f(*x)),
                     "y" => fmt_f(*y),
                     "name" | "Y" => format!("v{}", i),
                     // free text: values that start with '#', quoted values with a comma or a line break inside
